@@ -91,6 +91,10 @@ def enumerate_cases(tier, shard=0, nshards=1):
                     inp = sorted(m['inputs'])
                     yield {'fixed': mi, 'focus': list(focus), 'pre': pre,
                            'changes': [[inp[0], 10], [inp[-1], 7]]}
+                    if not pre:
+                        yield {'fixed': mi, 'focus': list(focus), 'pre': pre,
+                               'twice': True,
+                               'changes': [[inp[0], 10], [inp[-1], 7]]}
 
 
 def _build(d):
@@ -169,7 +173,7 @@ def _build(d):
         # for other cells / another extent (a later revision of a workbook)
         cur = [n['range'] for n in names if 'range' in n][0]
         sib = d.choice([e for e in exts if e != cur])
-    return {'sibling': sib,
+    return {'sibling': sib, 'twice': d.pick(4) == 0,
             'model': model, 'focus': sorted(set(focus)), 'pre': bool(
         d.pick(2)), 'changes': changes, 'names': names, 'prehist': prehist,
         'skipfirst': d.pick(3) == 0, 'again': d.pick(2) == 0, 'raw': raw}
@@ -313,7 +317,14 @@ def judge(case):
     consts_before = const_values(m)
     try:
         rawf = sorted(case.get('raw') or {})
-        ex = xl.ModelCompiler.extract(m, focus=list(focus) + rawf)
+        if case.get('twice'):
+            # "any model": the original may itself be an extract (of a
+            # wider focus: every formula cell)
+            wide = sorted(set(list(focus) + rawf + list(model['order'])))
+            ex1 = xl.ModelCompiler.extract(m, focus=wide)
+            ex = xl.ModelCompiler.extract(ex1, focus=list(focus) + rawf)
+        else:
+            ex = xl.ModelCompiler.extract(m, focus=list(focus) + rawf)
     except Exception as err:  # noqa: BLE001
         t = exc_tag(err)
         res.fail('extract-exception:%s:%s:%s' % (
